@@ -8,6 +8,8 @@ set -u
 WT=$1; M=$2; PROP=$3; shift 3
 export GOFLAGS=-mod=mod GOPROXY=off GOSUMDB=off
 VERIF=/verif
+# checks run from a snapshot of the verifier when SIM_SNAPSHOT is set (sim/ can then be edited meanwhile)
+SNAP=${SIM_SNAPSHOT:-$VERIF}
 mkdir -p "$WT/.demos"; mv "$WT"/mut*_demo_test.go "$WT/.demos/" 2>/dev/null
 DEMO="$WT/.demos/${M}_demo_test.go"
 DIFF="$WT/$M.diff"
@@ -39,7 +41,7 @@ if [ $CONFIRMED = yes ]; then
   rsync -a --exclude .git /repo/ "$SCR"/
   (cd "$SCR" && git init -q . 2>/dev/null; patch -p1 -s < "$DIFF") || { echo "cannot apply to scratch copy"; rm -rf "$SCR"; exit 2; }
   T0=$(date +%s)
-  SIM_REPO="$SCR" SIM_EVIDENCE_DIR="$OUT/evidence" SIM_REPLAY_DIR="$OUT/replays" python3 $VERIF/sim/vcheck.py check $PROP --no-selftest "$@" >/tmp/seed_check_$PROP$M.log 2>&1; RC=$?
+  SIM_REPO="$SCR" SIM_EVIDENCE_DIR="$OUT/evidence" SIM_REPLAY_DIR="$OUT/replays" python3 $SNAP/sim/vcheck.py check $PROP --no-selftest "$@" >/tmp/seed_check_$PROP$M.log 2>&1; RC=$?
   T1=$(date +%s)
   rm -rf "$SCR"
   LINE=$(grep -E "^VIOLATION|class=" /tmp/seed_check_$PROP$M.log | head -4 | tr '\n' ' ' | cut -c1-600)
